@@ -26,7 +26,7 @@ def check(repo, rep, tier):
     rep.run(rd.rule_retractall_once, em, rep, 'C07.O2')
     rep.run(rd.rule_clear_resets, em, rep, 'C07.O3')
     rep.run(rd.rule_retractall_filters_by_match, em, rep, 'C07.O2b')
-    sm = rd.StoreModel(em)
+    sm = None           # each rule builds the store model itself, inside its guard
     rep.run(rd.rule_no_read_yield_write, em, rep, 'C07.L2', sm)
     rep.run(rd.rule_remove_by_identity, em, rep, 'C07.L3', sm)
     # each list element is an immutable, independent copy (C13)
